@@ -213,6 +213,36 @@ pub fn const_value_fields<'tcx>(tcx: TyCtxt<'tcx>, val: ConstValue, ty: Ty<'tcx>
                 }
             }
         }
+        ConstValue::Indirect { alloc_id, offset }
+            if matches!(ty.builtin_deref(true).map(|t| t.kind()), Some(ty::Slice(_)) | Some(ty::Str)) =>
+        {
+            // a wide pointer stored in memory: (ptr with provenance, len)
+            if let Some(rustc_middle::mir::interpret::GlobalAlloc::Memory(alloc)) = tcx.try_get_global_alloc(alloc_id) {
+                let a = alloc.inner();
+                let off = offset.bytes() as usize;
+                if off + 16 <= a.len() {
+                    let raw = a.inspect_with_uninit_and_ptr_outside_interpreter(off..off + 16);
+                    let addend = u64::from_le_bytes(raw[0..8].try_into().unwrap());
+                    let len = u64::from_le_bytes(raw[8..16].try_into().unwrap());
+                    let target = a.provenance().ptrs().iter().find(|(o, _)| o.bytes() as usize == off).map(|(_, p)| p.alloc_id());
+                    let es = match ty.builtin_deref(true).map(|t| t.kind()) {
+                        Some(ty::Slice(e)) => tcx
+                            .layout_of(TypingEnv::fully_monomorphized().as_query_input(*e))
+                            .ok()
+                            .map(|l| l.size.bytes()),
+                        _ => Some(1),
+                    };
+                    if let (Some(t), Some(es)) = (target, es) {
+                        if let Some(b) = bytes_of_alloc(tcx, t, addend, es * len) {
+                            if b.len() <= 4096 {
+                                f.push(format!("\"raw\":\"{}\"", hex(&b)));
+                                f.push(format!("\"n\":{}", len));
+                            }
+                        }
+                    }
+                }
+            }
+        }
         ConstValue::Indirect { alloc_id, offset } => {
             if let Ok(layout) = tcx.layout_of(TypingEnv::fully_monomorphized().as_query_input(ty)) {
                 if layout.is_sized() {
